@@ -406,6 +406,8 @@ def check(chk):
                        f.where(x), detail=why or "", construct=f.ident, text="dead guard " + short(x, 60))
 
     # ------------------------------------------------------------- PAIR-10
+    from sa.helpers import delay_add_only_schedules
+    delay_add_only_schedules(chk, "PAIR-10")
     f = drv.methods["_pulse_now"]
     cfg = f.cfg()
     en = [(n, c) for n, c in cfg.calls_named("enable") if src(c.func.value) == "self.hw_driver"]
@@ -549,6 +551,8 @@ def battery():
     from sa.battery import M
     D = DRV
     return [
+        M("zero-length delay runs at once", "mpf/core/delays.py", "        self.delays[name] = (self.machine.clock.schedule_once(\n            partial(self._process_delay_callback, name, callback, **kwargs),", "        if ms <= 0:\n            self._process_delay_callback(name, callback, **kwargs)\n            return name\n        self.delays[name] = (self.machine.clock.schedule_once(\n            partial(self._process_delay_callback, name, callback, **kwargs),", "PAIR-10"),
+        M("zero-length delay calls the callback", "mpf/core/delays.py", "        self.delays[name] = (self.machine.clock.schedule_once(\n            partial(self._process_delay_callback, name, callback, **kwargs),", "        if not ms:\n            callback(**kwargs)\n        self.delays[name] = (self.machine.clock.schedule_once(\n            partial(self._process_delay_callback, name, callback, **kwargs),", "PAIR-10"),
         M("dead guard pulse_power", D, "if pulse_power and (pulse_power < 0 or pulse_power > 1):", "if pulse_power and 0 > pulse_power > 1:", ("DEAD-1", "DOM-17")),
         M("negative pulse_ms accepted", D, "        if pulse_ms < 0:\n            raise AssertionError(\"Pulse_ms {} is not valid.\".format(pulse_ms))\n", "", "DOM-17"),
         M("negative timed_enable accepted", D, "        if timed_enable_ms < 0:\n            raise AssertionError(\"Timed_enable_ms {} is not valid.\".format(timed_enable_ms))\n", "", "DOM-17"),
